@@ -308,6 +308,13 @@ pub fn rewrites(s: &S, goal: &Ty, fresh: usize, light: bool) -> Vec<(&'static st
             wrap(S::Let { name: format!("k{fresh}"), ann: Some(ann.clone()), def: def.clone(), body: bx(S::Var(format!("k{fresh}"))) }),
             wrap(S::App(bx(S::Lam { name: format!("w{fresh}"), implicit: false, ann: Some(ann.clone()), body: bx(S::Var(format!("w{fresh}"))) }), bx(S::Paren(def.clone())))),
             wrap(S::If(bx(S::True), def.clone(), def.clone())),
+            // R4 on the annotation: the declared type named by a definition placed just before
+            S::Let {
+                name: format!("t{fresh}"),
+                ann: Some(bx(S::Type)),
+                def: ann.clone(),
+                body: bx(S::Let { name: name.clone(), ann: Some(bx(S::Var(format!("t{fresh}")))), def: def.clone(), body: body.clone() }),
+            },
         ]
     }) {
         out.push(("R3/R4/R5/R6-definition", v));
@@ -401,6 +408,90 @@ fn stuck_by_order_value(text: &str, horizon: usize) -> bool {
     })
 }
 
+// Finding F-HOLE-COPY seen through a rewrite: the rewritten program is rejected by the type checker, the
+// source has parameters without annotation, `open` copied an unresolved hole while the rewritten program
+// was checked (hook H2), and the violation disappears when the holes are written out: the rewritten
+// program with every un-annotated parameter annotated by the type the checker inferred for it in the
+// *initial* program is accepted and behaves like the initial program.
+fn is_hole_copy_rejection(text0: &str, rewritten: &S, b0: &Behaviour, horizon: usize) -> bool {
+    if !crate::findings::is_known("F-HOLE-COPY") {
+        return false;
+    }
+    // the inferred parameter types of the initial program, by binder name
+    let mut inferred: std::collections::HashMap<String, S> = std::collections::HashMap::new();
+    fn collect(m: &M, out: &mut std::collections::HashMap<String, S>) {
+        match m {
+            M::Lam(n, _, a, b) => {
+                if sem::is_closed(a) && !a.has_hole() {
+                    out.insert(n.to_string(), sem::m_to_s(a, &mut vec![]));
+                }
+                collect(a, out);
+                collect(b, out);
+            }
+            M::Pi(_, _, a, b) | M::App(a, b) | M::Bin(_, a, b) => {
+                collect(a, out);
+                collect(b, out);
+            }
+            M::Let(ds, b) => {
+                for (_, a, d) in ds {
+                    collect(a, out);
+                    collect(d, out);
+                }
+                collect(b, out);
+            }
+            M::Neg(a) => collect(a, out),
+            M::If(a, b, c) => {
+                collect(a, out);
+                collect(b, out);
+                collect(c, out);
+            }
+            _ => {}
+        }
+    }
+    let had_holes = sem::front_end(text0, |f| match f {
+        FrontEnd::Accepted(acc) => {
+            collect(&acc.elab, &mut inferred);
+            acc.source_has_holes
+        }
+        _ => false,
+    });
+    if !had_holes || inferred.is_empty() {
+        return false;
+    }
+    let copies = crate::verif_hooks::hole_copies();
+    let rejected = matches!(behaviour(&surface::print(rewritten), horizon), Behaviour::Rejected("type_check"));
+    if !rejected || crate::verif_hooks::hole_copies() == copies {
+        return false;
+    }
+    fn annotate(s: &S, inferred: &std::collections::HashMap<String, S>, changed: &mut bool) -> S {
+        let r = |x: &Rc<S>, changed: &mut bool| bx(annotate(x, inferred, changed));
+        match s {
+            S::Lam { name, implicit, ann, body } => {
+                let ann = match ann {
+                    None if inferred.contains_key(name) => {
+                        *changed = true;
+                        Some(bx(inferred[name].clone()))
+                    }
+                    None => None,
+                    Some(a) => Some(r(a, changed)),
+                };
+                S::Lam { name: name.clone(), implicit: *implicit, ann, body: r(body, changed) }
+            }
+            S::Pi { name, implicit, dom, cod } => S::Pi { name: name.clone(), implicit: *implicit, dom: r(dom, changed), cod: r(cod, changed) },
+            S::App(a, b) => S::App(r(a, changed), r(b, changed)),
+            S::Let { name, ann, def, body } => S::Let { name: name.clone(), ann: ann.as_ref().map(|a| r(a, changed)), def: r(def, changed), body: r(body, changed) },
+            S::Neg(a) => S::Neg(r(a, changed)),
+            S::Bin(o, a, b) => S::Bin(*o, r(a, changed), r(b, changed)),
+            S::If(a, b, c) => S::If(r(a, changed), r(b, changed), r(c, changed)),
+            S::Paren(a) => S::Paren(r(a, changed)),
+            other => other.clone(),
+        }
+    }
+    let mut changed = false;
+    let annotated = annotate(rewritten, &inferred, &mut changed);
+    changed && behaviour(&surface::print(&annotated), horizon) == *b0
+}
+
 fn search(initial: &S, goal: &Ty, depth: usize, horizon: usize, light: bool) {
     let text0 = surface::print(initial);
     let b0 = behaviour(&text0, horizon);
@@ -439,6 +530,10 @@ fn search(initial: &S, goal: &Ty, depth: usize, horizon: usize, light: bool) {
                     // earlier computed definition that uses it then breaks the (syntactic)
                     // definition-order rule and the program is rejected. Not expanded further.
                     crate::infra::known("F-ORDER-SYNTACTIC", || format!("{text0}   --{}-->   {text}", p.join(", ")));
+                } else if matches!(b, Behaviour::Rejected("type_check")) && is_hole_copy_rejection(&text0, &t, &b0, horizon * 4) {
+                    // F-HOLE-COPY seen through a rewrite (the violation disappears when the holes are written
+                    // out). Not expanded further.
+                    crate::infra::known("F-HOLE-COPY", || format!("{text0}   --{}-->   {text}", p.join(", ")));
                 } else if b == Behaviour::Stuck && crate::findings::is_known("F-ORDER-VALUE") && stuck_by_order_value(&text, horizon * 4) {
                     // (F-ORDER-VALUE is repaired; the classifier stays so that a regression is named.)
                     // The rewritten program is accepted and then needs a function that is defined later
@@ -501,6 +596,12 @@ fn family_sweep(tier: Tier) -> Sweep {
         "t : type = {a : type} -> a -> a; ff : (t -> int) = (g : t) => 3; id : t = {a : type} => (x : a) => x; ff id",
         "ff : (({a : type} -> a -> a) -> int) = (g : {a : type} -> a -> a) => 3; ff ({b : type} => (x : b) => x)",
         "dep : ((a : type) -> (p : a -> type) -> (x : a) -> (h : (y : a) -> p y) -> p x) = (a : type) => (p : a -> type) => (x : a) => (h : (y : a) -> p y) => h x; 5",
+        // parameters without annotation (holes written in an outer scope) whose type is fixed by an
+        // annotated definition further in
+        "ff = lo => (floor : int = lo; floor + 1); ff 10",
+        "(lo => (floor : int = lo; if floor < 1 then 0 else floor)) 10",
+        "gg = bb => (flag : bool = bb; if flag then 1 else 2); gg true",
+        "hh = lo => hi => (floor : int = lo; top : int = hi; top - floor); hh 3 10",
     ] {
         texts.push(p.to_owned());
     }
